@@ -28,6 +28,7 @@ type World struct {
 	specInsts map[*gen]map[string]*specInst
 	lemmaPkg  *types.Package
 	funcsByKey map[string]*ssa.Function
+	typeIDs    map[string]int
 }
 
 func (w *World) pos(p token.Pos) string {
@@ -124,7 +125,8 @@ func LoadWorld(repo string, pkgDirs []string) (*World, error) {
 			}
 		}
 	}
-	cs, err := LoadContracts(repo, pkgDirs)
+	// contract files of every package are read (callee contracts), packages are loaded only as needed
+	cs, err := LoadContracts(repo, contractDirs(repo))
 	if err != nil {
 		return nil, err
 	}
@@ -189,7 +191,7 @@ func (w *World) shortKey(full string) string {
 
 // contractFor finds the contract that governs a call to the function with the given key.
 func (w *World) contractFor(full string, from *Unit) *Contract {
-	if ct, ok := w.cs.Funcs[full]; ok {
+	if ct, ok := w.cs.Funcs[full]; ok && ct.Opts["verify-only"] == "" {
 		return ct
 	}
 	if ct, ok := w.cs.Externs[full]; ok {
@@ -353,4 +355,17 @@ func (w *World) lookupGoType(t string) types.Type {
 		return inst
 	}
 	return nil
+}
+
+// typeID: a small integer per concrete dynamic type (identical types share it)
+func (w *World) typeID(t types.Type) int {
+	if w.typeIDs == nil {
+		w.typeIDs = map[string]int{}
+	}
+	k := types.TypeString(types.Unalias(t), nil)
+	if id, ok := w.typeIDs[k]; ok {
+		return id
+	}
+	w.typeIDs[k] = len(w.typeIDs) + 1
+	return w.typeIDs[k]
 }
